@@ -237,6 +237,29 @@ def step (cast : Nat → R) (s : St R) : Op R → St R
 def run (cast : Nat → R) (h w : Nat) (ops : List (Op R)) : St R :=
   ops.foldl (step cast) (St.init h w)
 
+/-! ## reading a Dataset repeatedly (`__getitem__` over an index history)
+
+`_fill_cache` stores one pre-augmentation state per index; `__getitem__(idx)` takes
+`sample = self.cache[idx].copy()` (a *shallow* copy), **rebinds** keys of `sample` to freshly
+computed tensors and never writes into a cached tensor.  So one read is a function of the cached
+entry and of that read's own augmentation draw, and it hands the cache back unchanged — this is the
+model fact that makes every per-read theorem independent of the read history. -/
+
+/-- one read of index `idx`; `ops` = what `__getitem__` applies to the cached entry on this read
+(its augmentation draw, re-crop, stride pad).  Returns the sample and the cache after the read. -/
+def getItem (cast : Nat → R) (cache : List (St R)) (idx : Nat) (ops : List (Op R)) :
+    Option (St R) × List (St R) :=
+  ((cache[idx]?).map fun s => ops.foldl (step cast) s, cache)
+
+/-- a read history: the cache is threaded through the reads in order -/
+def readAll (cast : Nat → R) (cache : List (St R)) :
+    List (Nat × List (Op R)) → List (Option (St R)) × List (St R)
+  | [] => ([], cache)
+  | (i, ops) :: rest =>
+    let r := getItem cast cache i ops
+    let rs := readAll cast r.2 rest
+    (r.1 :: rs.1, rs.2)
+
 /-! ## `find_instance_crop_size` -/
 
 section cropsize
